@@ -18,11 +18,19 @@ requests fields                                -> the theory flag names, in orde
          tcombrow T                            -> 4096 * 12 characters: `T.combine(U)`
          closer L L…   (target, supported…)    -> ok <name> <qf> <T> | err <class>
          closerpysmt L | closersmtlib L | mostgeneric L… | byname <string> | getlogic <qf> <T>   -> same
+         caps                                  -> theory features detect   (the detection model is present)
+         theory <wire term>                    -> <T>   (TheoryOracle.get_theory, modelled)
+         features <wire term>                  -> <T> q|qf   (specification: features the term uses)
+         detect <wire term>                    -> ok <name> <qf> <T> | err <class>   (oracles.get_logic, modelled)
 anything else -> bad-op
 -/
 import PySMT.Gen.Logics
 import PySMT.Spec.LogicOrder
+import PySMT.Spec.Features
+import PySMT.Impl.TheoryOracle
+import PySMT.Core.DriverLib
 open PySMT.Logics
+open PySMT PySMT.Wire
 
 def bit (b : Bool) : String := if b then "1" else "0"
 
@@ -75,8 +83,22 @@ def trel2 (f : Theory → Theory → Bool) (a b : String) : String :=
   | some x, some y => tf (f x y)
   | _, _ => "bad-op"
 
+def termAnswer (line : String) : Option String :=
+  let toks := Wire.tokens line
+  match toks[0]? with
+  | some "theory" => some <| DriverLib.handle (do let t ← term; return showT (TheoryOracle.theoryOf t)) toks
+  | some "features" => some <| DriverLib.handle (do
+      let t ← term
+      return showT (Features.features t) ++ (if Features.hasQuant t then " q" else " qf")) toks
+  | some "detect" => some <| DriverLib.handle (do let t ← term; return showR (TheoryOracle.getLogic t)) toks
+  | _ => none
+
 def answer (all : Array Theory) (line : String) : String :=
+  match termAnswer line with
+  | some a => a
+  | none =>
   match line.splitOn " " with
+  | ["caps"] => "theory features detect"
   | ["le", a, b] => rel2 Logic.le a b
   | ["lt", a, b] => rel2 Logic.lt a b
   | ["ge", a, b] => rel2 Logic.ge a b
